@@ -270,12 +270,13 @@ pub struct WStats {
     pub dismantled: u64,
     pub unfittable: u64,
     pub cross_advance: u64,
+    pub uninit_len_mismatch: u64,
     pub classes: [u64; 4],
 }
 
 impl Default for WStats {
     fn default() -> Self {
-        WStats { ops: [0; 16], putters: [0; 38], leaf_kinds: [0; 7], panics: 0, walks: 0, readbacks: 0, large_fills: 0, inner_direct: 0, dismantled: 0, unfittable: 0, cross_advance: 0, classes: [0; 4] }
+        WStats { ops: [0; 16], putters: [0; 38], leaf_kinds: [0; 7], panics: 0, walks: 0, readbacks: 0, large_fills: 0, inner_direct: 0, dismantled: 0, unfittable: 0, cross_advance: 0, uninit_len_mismatch: 0, classes: [0; 4] }
     }
 }
 
@@ -586,6 +587,43 @@ impl<'a> WInterp<'a> {
                 let data: Vec<u8> = (0..want).map(|i| 0x80 + (i % 64) as u8).collect();
                 let d2 = data.clone();
                 let how = b % 5;
+                // UninitSlice::copy_from_slice is a public safe method that "panics if self and src have different lengths":
+                // a shorter source must not be read past its end, a longer one must not be cut silently
+                if b % 7 == 6 && room >= 2 {
+                    let root = self.root.as_mut().unwrap();
+                    let src_store: [u8; 4] = [0x31, crate::oalloc::GUARD, crate::oalloc::GUARD, crate::oalloc::GUARD];
+                    let short = catch_unwind(AssertUnwindSafe(|| {
+                        let ch = root.chunk_mut();
+                        if ch.len() >= 2 {
+                            ch[..2].copy_from_slice(&src_store[..1]);
+                            true
+                        } else {
+                            false
+                        }
+                    }));
+                    let long = catch_unwind(AssertUnwindSafe(|| {
+                        let ch = root.chunk_mut();
+                        if ch.len() >= 1 {
+                            ch[..1].copy_from_slice(&src_store[..2]);
+                            true
+                        } else {
+                            false
+                        }
+                    }));
+                    self.st.uninit_len_mismatch += 1;
+                    if matches!(short, Ok(true)) {
+                        self.v("C11", "UninitSlice-copy_from_slice-accepted-a-shorter-source", "chunk_mut()[..2].copy_from_slice(&[x]) returned normally".to_string());
+                        self.v("C02", "out-of-bounds-read(copy_from_slice of a shorter source)", "UninitSlice::copy_from_slice copied 2 bytes out of a 1-byte source".to_string());
+                    }
+                    if matches!(long, Ok(true)) {
+                        self.v("C11", "UninitSlice-copy_from_slice-accepted-a-longer-source", "chunk_mut()[..1].copy_from_slice(&[x, y]) returned normally".to_string());
+                    }
+                    if !self.viols.is_empty() {
+                        self.ended = true;
+                        self.observe(false);
+                        return;
+                    }
+                }
                 self.write_op(format!("chunk_mut + write {} + advance_mut", want), &data, move |r| {
                     // the documented manual pattern, repeated until everything is written
                     let mut left: &[u8] = &d2;
@@ -1135,7 +1173,7 @@ pub fn main_bufmut(args: &Args) -> i32 {
     let out = json!({
         "engine": "bufmut", "property": prop, "profile": util::profile_name(), "seed": seed, "worker": worker,
         "evaluations": col.evals, "nontrivial_distinct_this_worker": col.nontriv.len(), "exhaustive": exhaustive,
-        "histogram": {"write_ops": ops, "target_leaf_kinds": kinds, "typed_writes": puts, "expected_panics(write does not fit)": st.panics, "structural_walks": st.walks, "read_backs": st.readbacks, "large_fills(>=128KiB)": st.large_fills, "direct_inner_writes": st.inner_direct, "trees_dismantled_with_into_inner": st.dismantled, "fills_larger_than_remaining_mut": st.unfittable, "advance_mut_across_a_chain_boundary": st.cross_advance,
+        "histogram": {"write_ops": ops, "target_leaf_kinds": kinds, "typed_writes": puts, "expected_panics(write does not fit)": st.panics, "structural_walks": st.walks, "read_backs": st.readbacks, "large_fills(>=128KiB)": st.large_fills, "direct_inner_writes": st.inner_direct, "trees_dismantled_with_into_inner": st.dismantled, "fills_larger_than_remaining_mut": st.unfittable, "advance_mut_across_a_chain_boundary": st.cross_advance, "UninitSlice_copy_from_slice_length_mismatch_probes": st.uninit_len_mismatch,
             "required_classes": {"write straddled a chunk end": st.classes[0], "growable target grew": st.classes[1], "write did not fit": st.classes[2], "write ended exactly at a chunk end / limit / capacity": st.classes[3]},
             "cases_ended_by_another_property's_violation": col.foreign},
         "samples": col.samples, "violations": col.viols,
